@@ -43,7 +43,8 @@ def main():
         meta = json.load(open(meta_p))
         if meta.get("retired"):
             continue
-        checks = ALL if allchecks else sorted(set([meta["property"]] + EXTRA.get(s, [])))
+        # the seed's own property first; sibling checks only when that one does not report it (or with --extra)
+        checks = ALL if allchecks else [meta["property"]] + [c for c in EXTRA.get(s, []) if c != meta["property"]]
         a = sh("git -C /repo apply %s" % os.path.join(SEEDED, s, "patch.diff"))
         if a.returncode != 0:
             print(s, "PATCH DOES NOT APPLY", a.stdout[:200])
@@ -57,6 +58,8 @@ def main():
                 sigs = [l.strip()[len("signature: "):] for l in p.stdout.splitlines() if l.strip().startswith("signature:")]
                 row[c] = {"exit": p.returncode, "violations": len(viol), "signatures": sigs[:3], "wall_s": round(time.time() - t0, 1), "repo_head": head}
                 print("%-34s %s exit=%d violations=%d %s" % (s, c, p.returncode, len(viol), (sigs[:1] or [""])[0][:70]), flush=True)
+                if p.returncode == 1 and c == meta["property"] and not allchecks and "--extra" not in sys.argv:
+                    break
         finally:
             sh("git -C /repo checkout -- .")
         matrix[s] = row
